@@ -396,6 +396,7 @@ def _drain_group(t, case, ingest, group, order, seed, limit):
     bulks = []
     step = 0
     runaway = False
+    held, mutated = {}, []
     try:
         while active:
             k = (order[step % len(order)] % len(active)) if order else 0
@@ -407,6 +408,12 @@ def _drain_group(t, case, ingest, group, order, seed, limit):
                 active.pop(k)
                 continue
             bulks.append(_Bulk(p, group[h]))
+            # AsyncExecutor holds the dict it was given across awaits (throttle sleep, the request itself) while the other clients of
+            # the worker ask for their bulks: what a client was handed must not change before the same client asks again
+            held[h] = (p, bulks[-1])
+            for oh, (op_, ob) in held.items():
+                if oh != h and (op_.get("body") is not ob.body or op_.get("bulk-size") != ob.size):
+                    mutated.append((group[oh], group[h]))
             if len(bulks) > limit:
                 runaway = True
                 break
@@ -418,7 +425,7 @@ def _drain_group(t, case, ingest, group, order, seed, limit):
                     gen.close()
                 except Exception:  # pylint: disable=broad-except
                     pass
-    return source, bulks, runaway
+    return source, bulks, runaway, mutated
 
 
 def _body_bytes(body):
@@ -454,7 +461,7 @@ class _BulkEs:
         pass
 
 
-def _run_through_adapter(t, case, group, seed):
+def _run_through_adapter(t, case, group, seed, target=None):
     """the clients of one worker run the bulk task through the real AsyncIoAdapter / AsyncExecutor / schedule_for / bulk runner"""
     import threading
 
@@ -473,9 +480,9 @@ def _run_through_adapter(t, case, group, seed):
             return _BulkEs(sink)
 
     op = track.Operation("bulk-op", track.OperationType.Bulk.to_hyphenated_string(), params=_op_params(case, 100))
-    task = track.Task("bulk-task", op, clients=case["clients"])
+    task = track.Task("bulk-task", op, clients=case["clients"], params={} if target is None else {"target-throughput": target})
     random.seed(seed)
-    clock = kernel.VirtualClock(horizon=1e6)
+    clock = kernel.VirtualClock(horizon=1e9)
     cfg = loadgen.base_config("abort")
     rally_runner.register_runner(track.OperationType.Bulk, rally_runner.BulkIndex(), async_runner=True)
     allocs, contexts = [], {}
@@ -716,7 +723,7 @@ def _run_files(case, obs):
             seed = case["seed"] * 64 + gi
             # ---- run A: everything, call order A -------------------------------------------------------------------
             try:
-                source, bulks_a, runaway = _drain_group(t, case, 100, group, case["order_a"], seed, limit)
+                source, bulks_a, runaway, mutated = _drain_group(t, case, 100, group, case["order_a"], seed, limit)
             except exceptions.RallyAssertionError as ex:
                 if not targeted or total_docs == 0:
                     obs.inconclusive = f"nothing targeted: {ex}"
@@ -737,7 +744,8 @@ def _run_files(case, obs):
             )
             # ---- run B: everything again under call order B: the same bulks (as a multiset; the statement fixes no issue order) ----
             if len(group) >= 2:
-                _, bulks_b, runaway = _drain_group(t, case, 100, group, case["order_b"], seed, limit)
+                _, bulks_b, runaway, mutated_b = _drain_group(t, case, 100, group, case["order_b"], seed, limit)
+                mutated = mutated + mutated_b
                 if not obs.check(not runaway, "cover/runaway", f"group {gi} (run B) issued more than {limit} bulks"):
                     return
                 obs.check(
@@ -746,9 +754,15 @@ def _run_files(case, obs):
                     f"group {gi}: call order {case['order_b']} gives {len(bulks_b)} bulks, order {case['order_a']} gives {len(bulks_a)}"
                     + ("" if len(bulks_a) != len(bulks_b) else " with different contents"),
                 )
+            obs.check(
+                not mutated,
+                "held-params-overwritten",
+                lambda: f"group {gi}: the bulk handed to client {mutated[0][0]} was overwritten in place when client {mutated[0][1]} asked for its "
+                f"next bulk ({len(mutated)} times): a client that waits for its scheduled time would send the other client's documents",
+            )
             # ---- run C: drawn ingest percentage under call order A: the first ceil(p% x bulks of run A) bulks of run A ----------
             if partial:
-                _, bulks_c, runaway = _drain_group(t, case, ingest, group, case["order_a"], seed, limit)
+                _, bulks_c, runaway, _m = _drain_group(t, case, ingest, group, case["order_a"], seed, limit)
                 if not obs.check(not runaway, "cover/runaway", f"group {gi} (run C) issued more than {limit} bulks"):
                     return
                 accepted = _accepted_counts(ingest, len(bulks_a))
@@ -766,7 +780,11 @@ def _run_files(case, obs):
             # ---- run D (a sample of the cases): the real AsyncIoAdapter.run() with the real bulk runner on a virtual-time loop ---
             # this checks, instead of restating it, how schedule_for shares one parameter source among the co-located clients of a task
             if case["seed"] % 4 == 0 and total_docs <= 3000 and not case["conflicts"]:
-                sent = _run_through_adapter(t, case, group, seed)
+                # unthrottled, or throttled so that clients wait (holding the bulk they were given) while their neighbours ask for theirs
+                target = [None, 8, "1000 docs/s"][(case["seed"] // 4) % 3]
+                sent = _run_through_adapter(t, case, group, seed, target)
+                if target is not None:
+                    obs.cls("end-to-end-throttled")
                 obs.check(
                     sorted(sent) == sorted(_body_bytes(x.body) for x in bulks_a),
                     "end-to-end/bulks-differ",
